@@ -110,7 +110,7 @@ def run(rep):
                        "three kinds of sources; deepcopyx (correspondence only): nil sources, and top-level maps copied into "
                        "populated maps that share keys with the source (also with NaN keys on both sides); "
                        "distinct = distinct op lines with a non-nil container")
-    rep.assumptions += ["user-declared DeepCopy methods are not in the corpus", "map keys are pointer-free (the property's 'value keys')",
+    rep.assumptions += ["user-declared DeepCopy methods in the corpus (UD, UDM, UDS) are written to copy exactly as the derived function does: the generator's dispatch to them is exercised, their bodies are not modelled", "map keys are pointer-free (the property's 'value keys')",
                         "'source unchanged' cannot fail in a functional model and is carried by the tie",
                         "slices of zero-size elements are excluded (no observable backing-array identity)",
                         "'equal' is read as: equal in Go's sense (reflect.DeepEqual / Spec.structEq) OR of the same shape and bits "
